@@ -624,6 +624,9 @@ type compiledPrivateDotExpr struct {
 }
 
 func (c *compiler) checkSuperBase(idx file.Idx) {
+	if c.inFieldInit > 0 {
+		return
+	}
 	if s := c.scope.nearestThis(); s != nil {
 		switch s.funcType {
 		case funcMethod, funcClsInit, funcCtor, funcDerivedCtor:
@@ -1949,7 +1952,9 @@ func (e *compiledClassLiteral) emitGetter(putOnStack bool) {
 			privateName, key, computed := e.processClassKey(elt.Key)
 			var el clsElement
 			if elt.Initializer != nil {
+				e.c.inFieldInit++
 				el.initializer = e.c.compileExpression(elt.Initializer)
+				e.c.inFieldInit--
 			}
 			el.computed = computed
 			if computed {
